@@ -56,9 +56,10 @@ Proof.
   { apply N.log2_lt_pow2; [exact Hpos|]. exact Hlt. }
   split; [lia|].
   assert (Hlo' : 2 ^ Z.of_N l <= Z.of_N m).
-  { rewrite <- N2Z.inj_pow. lia. }
+  { change 2 with (Z.of_N 2). rewrite <- N2Z.inj_pow. apply N2Z.inj_le. exact Hlo. }
   assert (Hhi' : Z.of_N m < 2 ^ (Z.of_N l + 1)).
-  { replace (Z.of_N l + 1) with (Z.of_N (N.succ l)) by lia. rewrite <- N2Z.inj_pow. lia. }
+  { replace (Z.of_N l + 1) with (Z.of_N (N.succ l)) by lia. change 2 with (Z.of_N 2). rewrite <- N2Z.inj_pow.
+    apply N2Z.inj_lt. exact Hhi. }
   assert (E1 : 2 ^ 63 = 2 ^ Z.of_N l * 2 ^ (63 - Z.of_N l)) by (rewrite <- Z.pow_add_r by lia; f_equal; lia).
   assert (E2 : 2 ^ 64 = 2 ^ (Z.of_N l + 1) * 2 ^ (63 - Z.of_N l)) by (rewrite <- Z.pow_add_r by lia; f_equal; lia).
   assert (Hp : 0 < 2 ^ (63 - Z.of_N l)) by (apply Z.pow_pos_nonneg; lia).
